@@ -394,6 +394,25 @@ func (db *DB) insertOrUpdate(s *Schema, o Object, commit bool) (err error) {
 		return
 	}
 
+	// constraints are checked before anything is written or indexed
+	if err = s.ObjectIndex.satisfyAll(o); err != nil {
+		return
+	}
+
+	if s.asyncWritesEnabled() {
+		// the object will be serialized later by the flush, we must know
+		// now whether that is possible
+		if _, err = json.Marshal(o); err != nil {
+			return
+		}
+	} else {
+		// writing the object to disk, before it gets indexed and cached so
+		// that a failing write leaves no trace in memory
+		if err = db.writeObject(o); err != nil {
+			return
+		}
+	}
+
 	if err = s.index(o); err != nil {
 		return
 	}
@@ -407,16 +426,9 @@ func (db *DB) insertOrUpdate(s *Schema, o Object, commit bool) (err error) {
 		// we don't write object to disk but store
 		// it in a structure for later saving
 		db.asyncw.put(o)
-	} else {
-		// writing the object to disk
-		if err = db.writeObject(o); err != nil {
-			return
-		}
-
+	} else if commit {
 		// commiting schema and index to disk
-		if commit {
-			return db.commit(o)
-		}
+		return db.commit(o)
 	}
 
 	return
